@@ -172,6 +172,19 @@ Section BindProofs.
     rewrite E, Z.eqb_refl, M. reflexivity.
   Qed.
 
+  (* GetTransactionsWithResults hands out (txs, results) only if both the
+     transaction check and the Core-level results check accepted. *)
+  Theorem core_tx_results_binds_l (lt : Z) (txs : list bytes) (rs : results)
+          (nrh : option (option bytes)) (ok : bool) (lb : light_block) :
+    core_get_transactions_with_results H (verify_transactions H txs lb) lt rs nrh ok lb = BOk ->
+    verify_transactions H txs lb = BOk /\ core_verify_block_results H lt rs nrh lb = BOk.
+  Proof.
+    unfold core_get_transactions_with_results.
+    destruct (verify_transactions H txs lb); try discriminate.
+    destruct (core_verify_block_results H lt rs nrh lb); try discriminate.
+    intros _. split; reflexivity.
+  Qed.
+
   (* ---------- transactions ---------- *)
   Theorem verify_transactions_binds_l (txs1 txs2 : list bytes) (lb : light_block) :
     verify_transactions H txs1 lb = BOk -> verify_transactions H txs2 lb = BOk ->
